@@ -898,6 +898,15 @@ def body(chk, db, cfgname):
         except Thrown as th:
             r4.bad(site, prep.loc(), "throws %s at %s" % (th.tt, th.where), cfgname)
 
+    # ------------------------------------------------------------------ R6: what is translated is what was added
+    # The interpreted summaries of R4 model a stored term by value.  That is only faithful if the storage keeps its OWN copy of
+    # every term: a storage that keeps the caller's pointer aliases all entries of a re-used Term object (H becomes k x the last
+    # term).  Decided by rule C20-R6 (copy appended to the list of its order, deep copy of the storage), re-evaluated here.
+    r6 = chk.rule("C04-R6", "the lattice stores its own copy of every term under its order and hands exactly those back (a re-used or modified Term object of the caller does not change stored terms)", "F1 dominance (rule C20-R6)", 4)
+    from pv.check import ViewCheck
+    from checks import c20
+    c20.body(ViewCheck(chk, {"C20-R6": r6}), db, cfgname)
+
     chk.undecided.append("the Fock-space matrix of the polynomial (Operator::actRight/getMatrixElement: C05; HamiltonianPart::prepare: C03); layouts beyond 3 orbitals x 3 spins when the emission structure differs from the reference; user terms of 6 operators (no preset builds one)")
     chk.trusted.append("std::vector::assign(first,last), std::map::find/end/operator[] and new Term(N) are modelled by their library semantics; Term(N) zero-initialises N entries")
 
